@@ -75,6 +75,15 @@ COLKEYS_X = "(" + ", ".join(repr(k) for k in _kx) + ",)"
 COLVALS_SHORT = "(" + ", ".join(v for _, v in COLPAIRS[:1]) + ",)"
 _a = _c.index('        if particle_type == "e":')
 SIGN = _c[_a:_c.index('raise ValueError("Given charged particle type can not be simulated")\n', _a) + len('raise ValueError("Given charged particle type can not be simulated")\n')]
+GVER = "    init_ver_position = np.arange(0.0, num_rows, 1.0) * pixel_vertical_size\n    init_ver_position += pixel_vertical_size / 2.0\n"
+
+
+def addfile(rel, text):
+    def f(files):
+        files[rel] = text
+    return f
+
+
 CASES = [
  ("tuple-unpack rows/cols", "same|differs-ok", [ed(CH, "        array = np.zeros((self._geo.row, self._geo.col))", "        rows, cols = self._geo.row, self._geo.col\n        array = np.zeros((rows, cols))"),
      ed(CH, MASK, MASK.replace("self._geo.row", "rows").replace("self._geo.col", "cols"))]),
@@ -156,6 +165,35 @@ EXTRA2 = [
  ("BREAK columns: key tuple assigned twice at module level", "failclosed", [ed(CH, HELP, HELP + "\n_COLS = " + COLKEYS + "\n_COLS = _COLS[::-1]\n"), ed(CH, COLDICT, "        values = " + COLVALS + "\n        new_charges = dict(zip(_COLS, values, strict=True))\n")]),
  ("BREAK columns: match capture rebinds a parameter", "failclosed", [ed(CH, SIGN, "        match particle_type:\n            case \"e\":\n                sign = -1\n            case \"h\":\n                sign = +1\n            case particles_per_cluster:\n                raise ValueError(\"Given charged particle type can not be simulated\")\n        charge = [sign] * elements\n")]),
  ("BREAK columns: a local function named dict", "failclosed", [ed(CH, HELP, HELP + "\n\ndef dict(**kw):\n    return {}\n"), ed(CH, COLDICT, "        new_charges = dict(" + ", ".join(f"{k}={v}" for k, v in COLPAIRS) + ")\n")]),
+ # ---- round 2d: NamedTuple records for locals, helpers living in another module of the package, conditional expressions
+ ("record: NamedTuple for the grid, fields read", "same", [ed(CH, HELP, "from typing import NamedTuple\n" + HELP + "\n\nclass _Grid(NamedTuple):\n    rows: int\n    cols: int\n"),
+     ed(CH, VCALL, "        grid = _Grid(num_rows, cols=num_cols)\n" + VCALL.replace(VKW, "            num_rows=grid.rows,\n            num_cols=grid[1],\n"))]),
+ ("record: NamedTuple unpacked", "same", [ed(CH, HELP, "import typing\n" + HELP + "\n\nclass _Grid(typing.NamedTuple):\n    \"\"\"grid\"\"\"\n    rows: int\n    cols: int\n"),
+     ed(CH, VCALL, "        grid = _Grid(num_rows, num_cols)\n        n_r, n_c = grid\n" + VCALL.replace(VKW, "            num_rows=n_r,\n            num_cols=n_c,\n"))]),
+ ("BREAK record built with the fields crossed", "failclosed|differs-bad", [ed(CH, HELP, "from typing import NamedTuple\n" + HELP + "\n\nclass _Grid(NamedTuple):\n    rows: int\n    cols: int\n"),
+     ed(CH, VCALL, "        grid = _Grid(num_cols, num_rows)\n" + VCALL.replace(VKW, "            num_rows=grid.rows,\n            num_cols=grid.cols,\n"))]),
+ ("BREAK record class with the fields declared in the other order", "failclosed|differs-bad", [ed(CH, HELP, "from typing import NamedTuple\n" + HELP + "\n\nclass _Grid(NamedTuple):\n    cols: int\n    rows: int\n"),
+     ed(CH, VCALL, "        grid = _Grid(num_rows, num_cols)\n" + VCALL.replace(VKW, "            num_rows=grid.rows,\n            num_cols=grid.cols,\n"))]),
+ ("BREAK record class with a property overriding nothing but not plain", "failclosed", [ed(CH, HELP, "from typing import NamedTuple\n" + HELP + "\n\nclass _Grid(NamedTuple):\n    rows: int\n    cols: int\n\n    def __getitem__(self, i):\n        return 1\n"),
+     ed(CH, VCALL, "        grid = _Grid(num_rows, num_cols)\n" + VCALL.replace(VKW, "            num_rows=grid[0],\n            num_cols=grid[1],\n"))]),
+ ("BREAK a plain class that merely looks like a record", "failclosed", [ed(CH, HELP, HELP + "\n\nclass NamedTuple:\n    def __init__(self, *a):\n        self.rows = self.cols = 1\n\n\nclass _Grid(NamedTuple):\n    rows: int\n    cols: int\n"),
+     ed(CH, VCALL, "        grid = _Grid(num_rows, num_cols)\n" + VCALL.replace(VKW, "            num_rows=grid.rows,\n            num_cols=grid.cols,\n"))]),
+ ("geometry: centre helper moved to a sibling module (relative import)", "same", [addfile("pyxel/detectors/_centres.py", "import numpy as np\n\n_HALF = 0.5\n\n\ndef centres_1d(n, s):\n    out = np.arange(0.0, n, 1.0) * s\n    out += s * _HALF\n    return out\n"),
+     ed(GE, "from pyxel.util import get_size\n", "from pyxel.util import get_size\nfrom ._centres import centres_1d\n"), ed(GE, GVER, "    init_ver_position = centres_1d(num_rows, pixel_vertical_size)\n")]),
+ ("geometry: centre helper re-exported by a package, late absolute import", "same", [addfile("pyxel/detectors/_centres.py", "import numpy as np\n\n\ndef centres_1d(n, s):\n    return (np.arange(n) + 0.5) * s\n"),
+     addfile("pyxel/helpers/__init__.py", "from ..detectors._centres import centres_1d as pixel_centres\n"),
+     ed(GE, GVER, "    from pyxel.helpers import pixel_centres\n    init_ver_position = pixel_centres(s=pixel_vertical_size, n=num_rows)\n")]),
+ ("BREAK foreign centre helper without the half pixel", "differs-bad", [addfile("pyxel/detectors/_centres.py", "import numpy as np\n\n\ndef centres_1d(n, s):\n    return np.arange(n) * s\n"),
+     ed(GE, "from pyxel.util import get_size\n", "from pyxel.util import get_size\nfrom ._centres import centres_1d\n"), ed(GE, GVER, "    init_ver_position = centres_1d(num_rows, pixel_vertical_size)\n")]),
+ ("BREAK foreign centre helper: its module constant is assigned twice", "failclosed", [addfile("pyxel/detectors/_centres.py", "import numpy as np\n\n_HALF = 0.5\n_HALF = 1.0\n\n\ndef centres_1d(n, s):\n    return (np.arange(n) + _HALF) * s\n"),
+     ed(GE, "from pyxel.util import get_size\n", "from pyxel.util import get_size\nfrom ._centres import centres_1d\n"), ed(GE, GVER, "    init_ver_position = centres_1d(num_rows, pixel_vertical_size)\n")]),
+ ("BREAK foreign centre helper rebound in its module", "failclosed", [addfile("pyxel/detectors/_centres.py", "import numpy as np\n\n\ndef centres_1d(n, s):\n    return (np.arange(n) + 0.5) * s\n\n\ncentres_1d = lambda n, s: np.arange(n) * s\n"),
+     ed(GE, "from pyxel.util import get_size\n", "from pyxel.util import get_size\nfrom ._centres import centres_1d\n"), ed(GE, GVER, "    init_ver_position = centres_1d(num_rows, pixel_vertical_size)\n")]),
+ ("BREAK centre helper of another distribution", "failclosed", [addfile("otherpkg/centres.py", "import numpy as np\n\n\ndef centres_1d(n, s):\n    return (np.arange(n) + 0.5) * s\n"),
+     ed(GE, "from pyxel.util import get_size\n", "from pyxel.util import get_size\nfrom otherpkg.centres import centres_1d\n"), ed(GE, GVER, "    init_ver_position = centres_1d(num_rows, pixel_vertical_size)\n")]),
+ ("array property: conditional expression", "same", [ed(CH, PROP, "        self._array = self._array if self._frame.empty else self.convert_df_to_array()\n        return self._array\n")]),
+ ("BREAK array property: conditional expression adopting the frame column", "failclosed|differs-bad", [ed(CH, PROP, "        self._array = self._array if self._frame.empty else self._frame[\"number\"].values\n        return self._array\n")]),
+ ("BREAK empty(): `or` keeps the old array", "failclosed|differs-bad", [ed(CH, "        self._array = np.zeros_like(self._array)\n\n    def frame_empty", "        self._array = self._array or np.zeros_like(self._array)\n\n    def frame_empty")]),
 ]
 
 
